@@ -244,15 +244,16 @@ theorem while_status_is_last_body (fuel : Nat) (s : St) (until_ : Bool) (cond bo
   cases r <;> simp
 
 /-- a command without a name (only assignments and/or words that expand to nothing) has the status of
-    the last command substitution it performed — those of the assignments after those of the words —
-    and zero if it performed none -/
-theorem absent_command_status (fuel : Nat) (s : St) (w a : Option Nat) :
-    (execCmd (fuel+1) s (.absent w a)).1.status =
-      match a, w with
-      | some x, _ => x
-      | none, some y => y
-      | none, none => 0 := by
-  cases a <;> cases w <;> simp [execCmd, finishSimple] <;> split <;> rfl
+    the last command substitution it performed — those of the assignments after those of the
+    redirections after those of the words — and zero if it performed none -/
+theorem absent_command_status (fuel : Nat) (s : St) (w r a : Option Nat) :
+    (execCmd (fuel+1) s (.absent w r a)).1.status =
+      match a, r, w with
+      | some x, _, _ => x
+      | none, some y, _ => y
+      | none, none, some z => z
+      | none, none, none => 0 := by
+  cases a <;> cases r <;> cases w <;> simp [execCmd, finishSimple] <;> split <;> rfl
 
 /-! ### the command search order -/
 
